@@ -27,6 +27,8 @@ CONSTANTS N,          \* ring size (power of two)
           Senders0,   \* set of initial sender handle names
           Recv0,      \* [initial receiver handle name -> stream name]
           StreamSeq0, \* the initial streams in creation order (= order in the published list)
+          LastStreamStays, \* TRUE: the repaired remove_reader (the last stream stays registered); FALSE: the
+                           \* original code, kept as a seeded specification mutant (TLC must refute it)
           RecordHist, \* keep the op history (behaviour generation) or not (exhaustive checking)
           MaxPre      \* bound on preemptions when RecordHist
 
@@ -70,6 +72,8 @@ Init ==
            bad |-> {},
            cloning |-> [t \in AllT |-> -1],    \* slot a thread is cloning/viewing, -1 if none
            expq |-> <<>>,                      \* expected results of the final (non-overlapped) calls
+           inq |-> {},                         \* payloads (by value id) the queue currently owns
+           lastpos |-> -1,                     \* cursor of the last stream when its last receiver left
            nval |-> 0, npre |-> 0, last |-> -1]
   /\ hist = <<>>
 
@@ -254,7 +258,14 @@ WTag(t) == /\ PC(t) = "w_tag"
            /\ LET i == Idx(L(t).hd) IN
               /\ Emit(t, "load", TagLoc(i), TagVal(mem.tag[i]), TRUE)
               /\ mem' = [mem EXCEPT !.slotv[i] = L(t).k]
-              /\ GhostBad(t, IF \E c \in AllT : gh.cloning[c] = i THEN {"C04"} ELSE {})
+              /\ LET old == mem.slotv[i]
+                     \* broadcast: the overwritten value is dropped by the writer (it must still be owned);
+                     \* move-out: nothing is dropped, so the old value must already have been moved out
+                     b1 == IF \E c \in AllT : gh.cloning[c] = i THEN {"C04"} ELSE {}
+                     b2 == IF BCAST THEN (IF mem.tag[i] # INIT /\ old \notin gh.inq THEN {"C05"} ELSE {})
+                           ELSE (IF old \in gh.inq THEN {"C05"} ELSE {})
+                 IN gh' = [Pre(t) EXCEPT !.bad = @ \cup b1 \cup b2,
+                                        !.inq = (IF BCAST /\ mem.tag[i] # INIT THEN @ \ {old} ELSE @) \cup {L(t).k}]
            /\ Goto(t, "w_pub")
            /\ UNCHANGED hnd
 
@@ -402,7 +413,10 @@ RFence(t) == /\ PC(t) = "r_fence"
              /\ Goto(t, IF ~L(t).single /\ BCAST THEN "r_unpin2" ELSE "r_commit")
              /\ Ghost(t) /\ UNCHANGED <<mem, hnd>>
 
-Deliver(t) == [Pre(t) EXCEPT !.sgot[S(t)] = Append(@, L(t).val)]
+\* move-out flavour: the consumer now owns the value (a view destroys it in place); it must have been owned
+Deliver(t) == [Pre(t) EXCEPT !.sgot[S(t)] = Append(@, L(t).val),
+                             !.inq = IF BCAST THEN @ ELSE @ \ {L(t).val},
+                             !.bad = @ \cup (IF ~BCAST /\ L(t).val \notin gh.inq THEN {"C05"} ELSE {})]
 
 RCommit(t) ==
   /\ PC(t) = "r_commit"
@@ -541,12 +555,14 @@ DrSub(t) == /\ PC(t) = "dr_sub"
             /\ Ghost(t) /\ UNCHANGED hnd
 DrGp(t) == /\ PC(t) = "dr_gp"
            /\ Emit(t, "load", "gptr", "*", TRUE)
-           /\ Go(t, IF Len(mem.groups[mem.gptr]) = 1 THEN "dr_lp" ELSE "dr_cas", [L(t) EXCEPT !.gp = mem.gptr])
+           /\ Go(t, IF LastStreamStays /\ Len(mem.groups[mem.gptr]) = 1 THEN "dr_lp" ELSE "dr_cas",
+                 [L(t) EXCEPT !.gp = mem.gptr])
            /\ Ghost(t) /\ UNCHANGED <<mem, hnd>>
 \* the last stream stays registered; its final position is remembered for teardown
 DrLp(t) == /\ PC(t) = "dr_lp"
            /\ Emit(t, "load", PosLoc(S(t)), mem.pos[S(t)], TRUE)
-           /\ Goto(t, "dr_set") /\ Ghost(t) /\ UNCHANGED <<mem, hnd>>
+           /\ Goto(t, IF LastStreamStays THEN "dr_set" ELSE "dr_has")
+           /\ gh' = [Pre(t) EXCEPT !.lastpos = mem.pos[S(t)]] /\ UNCHANGED <<mem, hnd>>
 DrSet(t) == /\ PC(t) = "dr_set"
             /\ Emit(t, "for", "signal", "*", TRUE)
             /\ mem' = [mem EXCEPT !.noR = TRUE]
@@ -560,14 +576,16 @@ DrCas(t) ==
         THEN /\ mem' = [mem EXCEPT !.groups = @ @@ (ng :> Without(mem.groups[mem.gptr], S(t))),
                                    !.gptr = ng, !.nextg = @ + 1]
              /\ Goto(t, "dr_f1")
-        ELSE /\ Go(t, IF Len(mem.groups[mem.gptr]) = 1 THEN "dr_lp" ELSE "dr_cas", [L(t) EXCEPT !.gp = mem.gptr])
+        ELSE /\ Go(t, IF LastStreamStays /\ Len(mem.groups[mem.gptr]) = 1 THEN "dr_lp" ELSE "dr_cas",
+                   [L(t) EXCEPT !.gp = mem.gptr])
              /\ UNCHANGED mem
   /\ Ghost(t) /\ UNCHANGED hnd
+\* (original code only) the removed stream was the last one: remember its cursor for teardown
 DrF1(t) == /\ PC(t) = "dr_f1" /\ Emit(t, "fence", "-", "*", TRUE)
-           /\ Goto(t, "dr_has") /\ Ghost(t) /\ UNCHANGED <<mem, hnd>>
+           /\ Goto(t, IF Len(mem.groups[L(t).gp]) = 1 THEN "dr_lp" ELSE "dr_has") /\ Ghost(t) /\ UNCHANGED <<mem, hnd>>
 DrHas(t) == /\ PC(t) = "dr_has"
             /\ Emit(t, "load", "gptr", "*", TRUE)
-            /\ Goto(t, "dr_f") /\ Ghost(t) /\ UNCHANGED <<mem, hnd>>
+            /\ Goto(t, IF Len(mem.groups[mem.gptr]) = 0 THEN "dr_set" ELSE "dr_f") /\ Ghost(t) /\ UNCHANGED <<mem, hnd>>
 DrF(t) == /\ PC(t) = "dr_f" /\ Emit(t, "fence", "-", "*", TRUE)
           /\ Ret(t, L(t).s) /\ Ghost(t) /\ UNCHANGED <<mem, hnd>>
 
@@ -610,6 +628,16 @@ NoStuck == ~(Quiescent /\ \E t \in AllT : PC(t) = "bw_wake" /\ t \notin mem.woke
               (mem.writers = 0 \/ mem.tag[Idx(mem.pos[S(t)])] = mem.pos[S(t)]))
 (* busy waiting: a spinning consumer whose value is there always gets out: checked as "no cycle" by the
    constraint-free state graph being finite and NoBad; the blocking strategy is checked by NoStuck *)
+
+(* C05 at teardown (Drop for MultiQueue): broadcast destroys every slot that was ever written, move-out
+   destroys the slots from last_pos to head; together with the drops above every payload the queue took
+   is destroyed exactly once *)
+TeardownClean ==
+  Done => IF BCAST
+          THEN gh.inq = {mem.slotv[i] : i \in {j \in 0..N-1 : mem.tag[j] # INIT}}
+          ELSE (mem.noR /\ gh.lastpos >= 0) =>
+                 /\ mem.head - gh.lastpos <= N
+                 /\ gh.inq = {mem.slotv[Idx(c)] : c \in gh.lastpos..(mem.head - 1)}
 
 PreBound == gh.npre <= MaxPre
 Replayed == Done => PrintT(<<"REPLAY", ToJson(hist)>>)
